@@ -250,12 +250,13 @@ fn clone_starts(tier: Tier) -> Vec<Start> {
                     forest: vec![A::doc(f.clone())],
                     adjacent_text: has_adjacent,
                     consolidation,
+                    parse: vec![],
                 });
             }
         }
     }
     // detached attribute / namespace node sources
-    out.push(Start { name: "attr".into(), forest: vec![A::attr_node(X, "l", "2"), A::ns_node("p", X)], adjacent_text: false, consolidation: true });
+    out.push(Start { name: "attr".into(), forest: vec![A::attr_node(X, "l", "2"), A::ns_node("p", X)], adjacent_text: false, consolidation: true , parse: vec![]});
     out
 }
 
